@@ -21,8 +21,9 @@ def run(tier):
     tftpd = ctx.bins["release"]["tftpd"]
     combos = list(itertools.product([False, True], repeat=5))  # read_only, overwrite, keep, single, distinct
     if tier != "thorough":
-        combos = [c for c in combos if (c[2], c[4]) in ((False, False), (True, True))]
-        combos = [c for c in combos if not (c[0] and c[1] and c[3])] [:10]
+        # every combination of (read_only, overwrite, single); keep/distinct alternate; plus two mixed extras
+        base = [(ro, ow, (i % 2 == 1), single, (i % 2 == 0)) for i, (ro, ow, single) in enumerate(itertools.product([False, True], repeat=3))]
+        combos = base + [(False, True, True, False, False), (True, False, False, True, True)]
     evaluations = 0
     distinct = set()
     samples = []
